@@ -17,9 +17,11 @@ IN, FL, CH = 1, 0x8001, 3
 
 def vocabulary(tier: str) -> List[Tuple[tuple, tuple]]:
     """[(constructor spec, expected identity)] - identity per the property text, written independently."""
-    names = ["h.local.", "H.Local.", "g.local."]
+    # the last four are pairwise different names whichever caseless comparison is meant (ASCII or Unicode lower-casing):
+    # only full case *folding* would merge them
+    names = ["h.local.", "H.Local.", "g.local.", "straße.local.", "strasse.local.", "ﬁ.local.", "fi.local."]
     if tier == "thorough":
-        names += ["H.LOCAL.", "h.local"]
+        names += ["H.LOCAL.", "h.local", "ſ.local.", "s.local."]
     classes = [IN, FL, CH]
     ttls = [0, 120] if tier == "quick" else [0, 120, 4500]
     createds = [1000.0, 2000.0]
@@ -61,7 +63,7 @@ def vocabulary(tier: str) -> List[Tuple[tuple, tuple]]:
 
 def question_vocabulary() -> List[Tuple[tuple, tuple]]:
     out = []
-    for n in ("h.local.", "H.Local.", "g.local.", "_a._tcp.local.", "_A._TCP.local."):
+    for n in ("h.local.", "H.Local.", "g.local.", "_a._tcp.local.", "_A._TCP.local.", "straße.local.", "strasse.local."):
         for t in (1, 12, 28, 33, 255):
             for c in (IN, FL, CH, CH | 0x8000):
                 out.append((("q", n, t, c), ("q", n.lower(), t, c & 0x7FFF)))
@@ -142,6 +144,12 @@ def run(tier: str, seed: int) -> Tuple[Stats, str, List[str], Dict[str, Any]]:
                 g = cache.async_get_unique(b)
                 if (g is a) != want:
                     bad.append((i, j, f"DNSCache.async_get_unique found={g is a}, identity says {want}"))
+                same_name = ia[1] == idents[j][1]
+                if (a in cache.entries_with_name(b.name)) != same_name:
+                    bad.append((i, j, f"DNSCache.entries_with_name finds the record: {not same_name}, names equal: {same_name}"))
+                want_d = same_name and a.type == b.type and a.class_ == b.class_
+                if (a in cache.get_all_by_details(b.name, b.type, b.class_)) != want_d:
+                    bad.append((i, j, f"DNSCache.get_all_by_details finds the record: {not want_d}, expected {want_d}"))
                 if not isinstance(b, DNSNsec):
                     g2 = cache.get(b)
                     if (g2 is a) != want:
